@@ -470,6 +470,10 @@ func (rt *RT) mkResult(f *Fn, exec int, r Result, t reflect.Type, slot string, t
 				sl = reflect.Append(sl, reflect.Zero(t.Elem()))
 				continue
 			}
+			if r.Rep && e > 0 && sl.Len() > 0 && !r.Zero {
+				sl = reflect.Append(sl, sl.Index(0)) // the very same value again
+				continue
+			}
 			tok := rt.newTok(f.ID, exec, slot, e)
 			*toks = append(*toks, tok)
 			sl = reflect.Append(sl, mkValue(r.T, r.Impl, tok))
